@@ -259,8 +259,10 @@ deriving DecidableEq, Repr
 /-- the part of memory that holds list cells -/
 abbrev Heap := Nat → Cell
 
-def Heap.setNext (h : Heap) (a v : Nat) : Heap := fun x => if x = a then { h x with next := v } else h x
-def Heap.setPrev (h : Heap) (a v : Nat) : Heap := fun x => if x = a then { h x with prev := v } else h x
+/-- `a->next = v` (the cell is read once) -/
+def Heap.setNext (h : Heap) (a v : Nat) : Heap := fun x => let c := h x; if x = a then { c with next := v } else c
+/-- `a->prev = v` -/
+def Heap.setPrev (h : Heap) (a v : Nat) : Heap := fun x => let c := h x; if x = a then { c with prev := v } else c
 
 /-- `LLIST_POISON1`, `LLIST_POISON2` -/
 def poison1 : Nat := 0x00100100
